@@ -42,6 +42,10 @@ func (c *compiler) compile() (string, error) {
 		var res interface{}
 		var err error
 
+		// forget the block statement recorded while an earlier tag was
+		// evaluated: an error in this statement belongs to this statement
+		c.curStmt = nil
+
 		switch node := stmt.(type) {
 		case *ast.ReturnStatement:
 			res, err = c.evalReturnStatement(node)
